@@ -421,6 +421,21 @@ func genWire(tier string) []proto.Item {
 			}
 		}
 	}
+	// the destination answers TTLs that are not adjacent (its answer to the probe in between is lost, or that probe is
+	// lost): the list ends at the lowest one on every schedule and latency order
+	for _, v := range proto.Variants {
+		vi := proto.Info(v)
+		if !vi.Parallel {
+			continue
+		}
+		for _, gap := range []proto.HopSpec{{LostReply: true}, {Silent: true}} {
+			for _, lat := range [][2]int{{3000, 3000}, {95000, 3000}} {
+				s := proto.Scn{Variant: v, First: 1, Last: 6, Dest: 3, IPIDBase: 700, EchoBase: 71, TimeoutMs: 300, DelayMs: 10, Bound: 1}
+				s.Hops = map[int]proto.HopSpec{3: {DelayUs: lat[0]}, 4: gap, 5: {DelayUs: lat[1]}, 6: gap}
+				items = append(items, proto.Item{Scn: s, Class: fmt.Sprintf("wire/%s/r1-6/destination-answers-non-adjacent-ttls", v), Note: map[string]string{"want_len": "3"}})
+			}
+		}
+	}
 	// relaxed variants behind a NAT that rewrote the quoted source (address and port) of a router's time-exceeded: the
 	// reply is accepted, early or late, and reflected in the result on every schedule
 	for _, v := range proto.Variants {
